@@ -61,7 +61,7 @@ func main() {
 	fnFilter := flag.String("fn", "", "only functions whose key contains this")
 	outDir := flag.String("out", "", "output directory for queries and results")
 	timeout := flag.Int("timeout", 10, "per-obligation solver budget (s)")
-	jobs := flag.Int("j", 8, "parallel obligations")
+	jobs := flag.Int("j", 12, "parallel obligations")
 	dump := flag.Bool("dump", false, "print SSA of the selected functions")
 	noSolve := flag.Bool("nosolve", false, "generate queries only")
 	perReturn := flag.Bool("perreturn", false, "debug: one postcondition obligation per return statement")
@@ -225,12 +225,17 @@ func main() {
 			defer wg.Done()
 			defer func() { <-sem }()
 			to := *timeout
-			if j.o.ExpectSat && to > 5 {
-				to = 5
-			}
-			sr := Solve(file, to, !j.o.ExpectSat)
-			j.r.Status, j.r.Solver, j.r.TimeS, j.r.Model, j.r.Outputs = sr.Status, sr.Solver, sr.TimeS, sr.Model, sr.Outputs
+			var sr *SolveResult
 			if j.o.ExpectSat {
+				sr = Probe(file, 2)
+			} else {
+				sr = Solve(file, to, true)
+			}
+			j.r.Status, j.r.Solver, j.r.TimeS, j.r.Model, j.r.Outputs = sr.Status, sr.Solver, sr.TimeS, sr.Model, sr.Outputs
+			if sr.Status == "error" {
+				j.r.Kind = "engine"
+				j.r.OK = false
+			} else if j.o.ExpectSat {
 				j.r.OK = sr.Status != "unsat"
 			} else {
 				j.r.OK = sr.Status == "unsat"
